@@ -1,6 +1,6 @@
 (* Properties/C15.v — runtime varint helpers agree with the protobuf wire format on all inputs.
    Only statements, each closed by `exact <lemma>`; proofs are in Proofs/RuntimeProofs.v. *)
-From CP Require Import Bytes Runtime Wire BytesLemmas RuntimeProofs.
+From CP Require Import Bytes Runtime Wire BytesLemmas RuntimeProofs GoFun GoFunProofs.
 Local Open Scope N_scope.
 
 (* Sov is the length of the varint the writers produce, and is protowire.SizeVarint *)
@@ -60,4 +60,34 @@ Example wf_example :
 Proof. cbv zeta. split; [|split]; [| vm_compute; reflexivity | vm_compute; reflexivity].
   unfold wf_wrec, num_ok, two64. repeat split; try reflexivity. Qed.
 Example encode_example : EncodeVarint [xaa; xbb; xcc; xdd] 3 300 = Ok ([xaa; xac; x02; xdd], 1%Z).
+Proof. vm_compute. reflexivity. Qed.
+
+(* ---- the Go source itself (runtime.go transcribed by the translator: GoFun.canon_runtime, re-derived and compared on every
+        run) computes the models above: for every input and every amount of fuel from the stated minimum up (task T12;
+        proofs in Proofs/GoFunProofs.v by symbolic execution of the interpreter GoFun.run_fun) ---- *)
+Theorem sov_prog : sov_prog_stmt.
+Proof. exact GoFunProofs.sov_prog_correct. Qed.
+Theorem soz_prog : soz_prog_stmt.
+Proof. exact GoFunProofs.soz_prog_correct. Qed.
+Theorem encodevarint_prog : encodevarint_prog_stmt.
+Proof. exact GoFunProofs.encodevarint_prog_correct. Qed.
+Theorem skip_prog : skip_prog_stmt.
+Proof. exact GoFunProofs.skip_prog_correct. Qed.
+Theorem options_prog : options_prog_stmt.
+Proof. exact GoFunProofs.options_prog_correct. Qed.
+Theorem child_limit : child_limit_stmt.
+Proof. exact GoFunProofs.child_limit_correct. Qed.
+
+(* non-vacuity: the interpreted Go code on a nested-group input (same answer as the model: 30 bytes), on a malformed one
+   (an end-group without a start: an error value, n = 0), and EncodeVarint writing 300 backwards from offset 3 *)
+Example skip_prog_example :
+  let r := WGroup 3 [WVarint 1 300; WGroup 2 [WBytes 536870911 [x61; x62]; WFixed32 7 [x01; x02; x03; x04]] 2;
+                     WFixed64 16 [x00; x00; x00; x00; x00; x00; x00; x01]] 3 in
+  let bs := enc_wrec r ++ [xff; xff] in
+  run_fun canon_runtime (11 + length bs) 1 "Skip" [GvBytes bs] = GOk [intv 30; GvErr None] [GvBytes bs] /\
+  skip_view (run_fun canon_runtime 13 1 "Skip" [GvBytes [x0c; x00]]) = Some Err /\ Skip [x0c; x00] = Err.
+Proof. cbv zeta. split; [|split]; vm_compute; reflexivity. Qed.
+Example encodevarint_prog_example :
+  run_fun canon_runtime 10 2 "EncodeVarint" [GvBytes [xaa; xbb; xcc; xdd]; intv 3; u64v 300]
+  = GOk [intv 1] [GvBytes [xaa; xac; x02; xdd]; intv 2; u64v 2].
 Proof. vm_compute. reflexivity. Qed.
